@@ -166,17 +166,20 @@ structure RefOutcome where
   refTo : Nat
   implicit : Bool
 
+/-- `rposition` over the non-REF components with the same name -/
+def sameNameIdx (env : Env) (existing : List (Str × Modifiers)) (name : Str) : Option Nat :=
+  let idxs := (List.range existing.length).filter (fun i =>
+    match existing[i]? with
+    | some (n, m) => !m.contains Modifiers.REF && nameEq env name n
+    | none => false)
+  idxs.getLast?
+
 /-- the generic `resolve_reference`; `names`/`mods` describe the existing components of the kind -/
 def resolveReference (env : Env) (container : String) (inherit : Nat)
     (existing : List (Str × Modifiers)) (name : Str) (mods : Modifiers)
     (location modLoc : Span) : A α (Modifiers × Option RefOutcome) := do
   let s ← get
-  let sameName : Option Nat :=
-    let idxs := (List.range existing.length).filter (fun i =>
-      match existing[i]? with
-      | some (n, m) => !m.contains Modifiers.REF && nameEq env name n
-      | none => false)
-    idxs.getLast?
+  let sameName : Option Nat := sameNameIdx env existing name
   let _ := container
   if mods.contains Modifiers.NEW && mods.contains Modifiers.REF then
     aerr "ref-conflicting-modifiers" [modLoc]
@@ -235,6 +238,17 @@ def resolveInterRef (d : Loc InterData) : A α (Option IngredientRelation) := do
   | .ok rel => return some rel
   | .error kind => aerr kind [d.span]; return none
 
+def optQuantityOf (env : Env) (q : Option (Loc (PQuantity α))) (isIngredient : Bool) :
+    A α (Option (Quantity (ScalableValue α))) :=
+  match q with
+  | some q => do let r ← quantityOf env q isIngredient; pure (some r)
+  | none => pure none
+
+def optValueOf (env : Env) (q : Option (Loc (PQValue α))) : A α (Option (ScalableValue α)) :=
+  match q with
+  | some q => do let r ← valueOf env q.val false; pure (some r)
+  | none => pure none
+
 /-- label of `note_reference_error` (after the repair): the note span widened over adjacent parentheses -/
 def byteAt (input : Str) (pos : Nat) : Option Char :=
   -- the character that starts at byte `pos`, if `pos` is a boundary
@@ -254,6 +268,108 @@ def noteReferenceError (input : Str) (noteSpan defSpan : Span) (defNote : Option
   | some sp => aerr "note-in-reference" [noteRefSpan input noteSpan, sp]
   | none => aerr "note-in-reference" [noteRefSpan input noteSpan, Span.pos defSpan.stop]
 
+/-- the `intermediate_data` branch of `ingredient`: checks + `resolve_intermediate_ref` -/
+def ingrInterChecks (i : PIngredient α) (igr : Ingredient (ScalableValue α)) : A α Unit := do
+  if !igr.modifiers.contains Modifiers.REF then apanic "intermediate data without REF"
+  let invalid := Modifiers.RECIPE ||| Modifiers.HIDDEN ||| Modifiers.NEW
+  if (igr.modifiers.bits &&& invalid) != 0 then aerr "inter-ref-conflicting-modifiers" [i.modifiers.span]
+
+def ingrInter (i : PIngredient α) (igr : Ingredient (ScalableValue α)) (d : Loc InterData) :
+    A α (Ingredient (ScalableValue α)) := do
+  ingrInterChecks i igr
+  match ← resolveInterRef d with
+  | some rel => return { igr with relation := rel }
+  | none => return igr
+
+/-- ADVANCED_UNITS: unit compatibility of the new reference with the definition and its other references
+    (diagnostics only) -/
+def ingrUnitChecks (env : Env) (i : PIngredient α) (newQ : Quantity (ScalableValue α)) (idxs : List Nat) : A α Unit := do
+  let s ← get
+  for idx in idxs do
+    match s.ingredients[idx]?, s.locIngr[idx]? with
+    | some other, some otherLoc =>
+      match other.quantity with
+      | some q =>
+        match compatibleUnit env q.unit newQ.unit with
+        | some _ =>
+          let oldQ := otherLoc.val.quantity
+          let oldSpan := match oldQ with
+            | some oq => (oq.val.unit.map (·.span)).getD oq.span
+            | none => ⟨0, 0⟩
+          if oldQ.isNone then apanic "locations quantity unwrap"
+          let newSpan := match i.quantity with
+            | some nq => (nq.val.unit.map (·.span)).getD nq.span
+            | none => ⟨0, 0⟩
+          awarn "incompatible-units" [newSpan, oldSpan]
+        | none => pure ()
+      | none => pure ()
+    | _, _ => apanic "referenced_from index out of range"
+
+/-- the checks of a resolved regular ingredient reference against its definition (diagnostics only) -/
+def ingrRefChecks (env : Env) (input : Str) (li : Loc (PIngredient α)) (igr : Ingredient (ScalableValue α))
+    (refTo : Nat) (defn : Ingredient (ScalableValue α)) (defLoc : Loc (PIngredient α)) : A α Unit := do
+  let i := li.val
+  if !(!defn.relation.relation.isReference) then apanic "definition is a reference"
+  if env.ext.has Gen.EXT_ADVANCED_UNITS then
+    match igr.quantity with
+    | some newQ => ingrUnitChecks env i newQ (refTo :: defn.relation.relation.referencedFrom)
+    | none => pure ()
+  match i.note with
+  | some n => noteReferenceError input n.span defLoc.span (defLoc.val.note.map (·.span))
+  | none => pure ()
+  let definedInStep := match defn.relation.relation with
+    | .definition _ b => b
+    | .reference _ => true
+  if defn.quantity.isSome && igr.quantity.isSome && !definedInStep then
+    aerr "conflicting-ref-quantity" [(i.quantity.map (·.span)).getD ⟨0, 0⟩, defLoc.span]
+  match igr.quantity, defn.quantity with
+  | some rq, some dq =>
+    let refText := rq.value.val.isText
+    let defText := dq.value.val.isText
+    if refText != defText then
+      let rl := (i.quantity.map (·.span)).getD ⟨0, 0⟩
+      let dl := (defLoc.val.quantity.map (·.span)).getD ⟨0, 0⟩
+      if defLoc.val.quantity.isNone then apanic "definition location quantity unwrap"
+      if refText then awarn "text-value-in-ref" [rl, dl] else awarn "text-value-in-ref" [dl, rl]
+  | _, _ => pure ()
+
+/-- `set_referenced_from` on the ingredient table: the definition at `refTo` lists `newIndex` back -/
+def ingrSetReferencedFrom (refTo newIndex : Nat) (defn : Ingredient (ScalableValue α)) : A α Unit :=
+  match defn.relation.relation with
+  | .definition rf b =>
+    modify fun s => { s with ingredients :=
+      s.ingredients.setIfInBounds refTo { defn with relation := ⟨.definition (rf ++ [newIndex]) b, defn.relation.referenceTarget⟩ } }
+  | .reference _ => apanic "Reference to reference"
+
+/-- the regular branch of `ingredient`: `resolve_reference`, the checks, the back-link -/
+def ingrRegular (env : Env) (input : Str) (li : Loc (PIngredient α)) (igr0 : Ingredient (ScalableValue α)) :
+    A α (Ingredient (ScalableValue α)) := do
+  let i := li.val
+  let s ← get
+  let existing := s.ingredients.toList.map (fun x => (x.name, x.modifiers))
+  let r ← resolveReference env "ingredient"
+    (Modifiers.HIDDEN ||| Modifiers.OPT ||| Modifiers.RECIPE) existing igr0.name igr0.modifiers li.span i.modifiers.span
+  match r.2 with
+  | none => return { igr0 with modifiers := r.1 }
+  | some o =>
+    let igr : Ingredient (ScalableValue α) :=
+      { igr0 with modifiers := r.1, relation := ⟨.reference o.refTo, some .ingredient⟩ }
+    let s ← get
+    match s.ingredients[o.refTo]?, s.locIngr[o.refTo]? with
+    | some defn, some defLoc =>
+      ingrRefChecks env input li igr o.refTo defn defLoc
+      ingrSetReferencedFrom o.refTo s.ingredients.size defn
+    | _, _ => apanic "reference target out of range"
+    return igr
+
+/-- resolve the (intermediate or regular) reference of the new ingredient and push it -/
+def ingrBuild (env : Env) (input : Str) (li : Loc (PIngredient α)) (igr0 : Ingredient (ScalableValue α)) : A α Nat := do
+  let igr ← (match li.val.inter with
+    | some d => ingrInter li.val igr0 d
+    | none => ingrRegular env input li igr0)
+  modify fun s => { s with locIngr := s.locIngr.push li, ingredients := s.ingredients.push igr }
+  return (← get).ingredients.size - 1
+
 def ingredientA (env : Env) (input : Str) (li : Loc (PIngredient α)) : A α Nat := do
   let i := li.val
   let name0 := i.name.trimmed env.cs
@@ -261,154 +377,102 @@ def ingredientA (env : Env) (input : Str) (li : Loc (PIngredient α)) : A α Nat
   let name := match reference with
     | some r => r.name
     | none => name0
-  let quantity ← (match i.quantity with
-    | some q => do let r ← quantityOf env q true; pure (some r)
-    | none => pure none)
+  let quantity ← optQuantityOf env i.quantity true
   let s0 ← get
-  let mut igr : Ingredient (ScalableValue α) :=
+  let igr0 : Ingredient (ScalableValue α) :=
     ⟨name, i.alias.map (·.trimmed env.cs), quantity, i.note.map (·.trimmed env.cs), reference,
      ⟨.definition [] (s0.defineMode != .components), none⟩, i.modifiers.val⟩
-  match i.inter with
-  | some d =>
-    if !igr.modifiers.contains Modifiers.REF then apanic "intermediate data without REF"
-    let invalid := Modifiers.RECIPE ||| Modifiers.HIDDEN ||| Modifiers.NEW
-    if (igr.modifiers.bits &&& invalid) != 0 then aerr "inter-ref-conflicting-modifiers" [i.modifiers.span]
-    match ← resolveInterRef d with
-    | some rel => igr := { igr with relation := rel }
-    | none => pure ()
-  | none =>
-    let s ← get
-    let existing := s.ingredients.toList.map (fun x => (x.name, x.modifiers))
-    let (mods', out) ← resolveReference env "ingredient"
-      (Modifiers.HIDDEN ||| Modifiers.OPT ||| Modifiers.RECIPE) existing igr.name igr.modifiers li.span i.modifiers.span
-    igr := { igr with modifiers := mods' }
-    match out with
-    | none => pure ()
-    | some o =>
-      igr := { igr with relation := ⟨.reference o.refTo, some .ingredient⟩ }
-      let s ← get
-      let defn := s.ingredients[o.refTo]?
-      let defLoc := s.locIngr[o.refTo]?
-      match defn, defLoc with
-      | some defn, some defLoc =>
-        if !(!defn.relation.relation.isReference) then apanic "definition is a reference"
-        if env.ext.has Gen.EXT_ADVANCED_UNITS then
-          match igr.quantity with
-          | some newQ =>
-            let idxs := o.refTo :: defn.relation.relation.referencedFrom
-            for idx in idxs do
-              match s.ingredients[idx]?, s.locIngr[idx]? with
-              | some other, some otherLoc =>
-                match other.quantity with
-                | some q =>
-                  match compatibleUnit env q.unit newQ.unit with
-                  | some _ =>
-                    let oldQ := otherLoc.val.quantity
-                    let oldSpan := match oldQ with
-                      | some oq => (oq.val.unit.map (·.span)).getD oq.span
-                      | none => ⟨0, 0⟩
-                    if oldQ.isNone then apanic "locations quantity unwrap"
-                    let newSpan := match i.quantity with
-                      | some nq => (nq.val.unit.map (·.span)).getD nq.span
-                      | none => ⟨0, 0⟩
-                    awarn "incompatible-units" [newSpan, oldSpan]
-                  | none => pure ()
-                | none => pure ()
-              | _, _ => apanic "referenced_from index out of range"
-          | none => pure ()
-        match i.note with
-        | some n => noteReferenceError input n.span defLoc.span (defLoc.val.note.map (·.span))
-        | none => pure ()
-        let definedInStep := match defn.relation.relation with
-          | .definition _ b => b
-          | .reference _ => true
-        if defn.quantity.isSome && igr.quantity.isSome && !definedInStep then
-          aerr "conflicting-ref-quantity" [(i.quantity.map (·.span)).getD ⟨0, 0⟩, defLoc.span]
-        match igr.quantity, defn.quantity with
-        | some rq, some dq =>
-          let refText := rq.value.val.isText
-          let defText := dq.value.val.isText
-          if refText != defText then
-            let rl := (i.quantity.map (·.span)).getD ⟨0, 0⟩
-            let dl := (defLoc.val.quantity.map (·.span)).getD ⟨0, 0⟩
-            if defLoc.val.quantity.isNone then apanic "definition location quantity unwrap"
-            if refText then awarn "text-value-in-ref" [rl, dl] else awarn "text-value-in-ref" [dl, rl]
-        | _, _ => pure ()
-        -- set_referenced_from
-        let newIndex := s.ingredients.size
-        match defn.relation.relation with
-        | .definition rf b =>
-          modify fun s => { s with ingredients :=
-            s.ingredients.setIfInBounds o.refTo { defn with relation := ⟨.definition (rf ++ [newIndex]) b, defn.relation.referenceTarget⟩ } }
-        | .reference _ => apanic "Reference to reference"
-      | _, _ => apanic "reference target out of range"
-  modify fun s => { s with locIngr := s.locIngr.push li, ingredients := s.ingredients.push igr }
-  return (← get).ingredients.size - 1
+  ingrBuild env input li igr0
 
-def cookwareA (env : Env) (input : Str) (lc : Loc (PCookware α)) : A α Nat := do
+/-- the checks of a resolved cookware reference against its definition (diagnostics only) -/
+def cwRefChecks (input : Str) (lc : Loc (PCookware α)) (cw : Cookware (ScalableValue α))
+    (defn : Cookware (ScalableValue α)) (defLoc : Loc (PCookware α)) : A α Unit := do
   let c := lc.val
-  let quantity ← (match c.quantity with
-    | some q => do let r ← valueOf env q.val false; pure (some r)
-    | none => pure none)
-  let s0 ← get
-  let mut cw : Cookware (ScalableValue α) :=
-    ⟨c.name.trimmed env.cs, c.alias.map (·.trimmed env.cs), quantity, c.note.map (·.trimmed env.cs),
-     .definition [] (s0.defineMode != .components), c.modifiers.val⟩
-  let existing := s0.cookware.toList.map (fun x => (x.name, x.modifiers))
-  let (mods', out) ← resolveReference env "cookware item" (Modifiers.HIDDEN ||| Modifiers.OPT)
-    existing cw.name cw.modifiers lc.span c.modifiers.span
-  cw := { cw with modifiers := mods' }
-  match out with
+  if defn.relation.isReference then apanic "definition is a reference"
+  match c.note with
+  | some n => noteReferenceError input n.span defLoc.span (defLoc.val.note.map (·.span))
   | none => pure ()
+  let definedInStep := match defn.relation with
+    | .definition _ b => b
+    | .reference _ => true
+  if defn.quantity.isSome && cw.quantity.isSome && !definedInStep then
+    aerr "conflicting-ref-quantity" [(c.quantity.map (·.span)).getD ⟨0, 0⟩, defLoc.span]
+  match cw.quantity, defn.quantity with
+  | some rq, some dq =>
+    let refText := rq.val.isText
+    let defText := dq.val.isText
+    if refText != defText then
+      let rl := (c.quantity.map (·.span)).getD ⟨0, 0⟩
+      let dl := (defLoc.val.quantity.map (·.span)).getD ⟨0, 0⟩
+      if defLoc.val.quantity.isNone then apanic "definition location quantity unwrap"
+      if refText then awarn "text-value-in-ref" [rl, dl] else awarn "text-value-in-ref" [dl, rl]
+  | _, _ => pure ()
+
+/-- `set_referenced_from` on the cookware table -/
+def cwSetReferencedFrom (refTo newIndex : Nat) (defn : Cookware (ScalableValue α)) : A α Unit :=
+  match defn.relation with
+  | .definition rf b =>
+    modify fun s => { s with cookware := s.cookware.setIfInBounds refTo { defn with relation := .definition (rf ++ [newIndex]) b } }
+  | .reference _ => apanic "Reference to reference"
+
+/-- `resolve_reference` + checks + back-link for a cookware item -/
+def cwResolve (env : Env) (input : Str) (lc : Loc (PCookware α)) (cw0 : Cookware (ScalableValue α)) :
+    A α (Cookware (ScalableValue α)) := do
+  let c := lc.val
+  let s0 ← get
+  let existing := s0.cookware.toList.map (fun x => (x.name, x.modifiers))
+  let r ← resolveReference env "cookware item" (Modifiers.HIDDEN ||| Modifiers.OPT)
+    existing cw0.name cw0.modifiers lc.span c.modifiers.span
+  match r.2 with
+  | none => return { cw0 with modifiers := r.1 }
   | some o =>
-    cw := { cw with relation := .reference o.refTo }
+    let cw : Cookware (ScalableValue α) := { cw0 with modifiers := r.1, relation := .reference o.refTo }
     let s ← get
     match s.cookware[o.refTo]?, s.locCw[o.refTo]? with
     | some defn, some defLoc =>
-      if defn.relation.isReference then apanic "definition is a reference"
-      match c.note with
-      | some n => noteReferenceError input n.span defLoc.span (defLoc.val.note.map (·.span))
-      | none => pure ()
-      let definedInStep := match defn.relation with
-        | .definition _ b => b
-        | .reference _ => true
-      if defn.quantity.isSome && cw.quantity.isSome && !definedInStep then
-        aerr "conflicting-ref-quantity" [(c.quantity.map (·.span)).getD ⟨0, 0⟩, defLoc.span]
-      match cw.quantity, defn.quantity with
-      | some rq, some dq =>
-        let refText := rq.val.isText
-        let defText := dq.val.isText
-        if refText != defText then
-          let rl := (c.quantity.map (·.span)).getD ⟨0, 0⟩
-          let dl := (defLoc.val.quantity.map (·.span)).getD ⟨0, 0⟩
-          if defLoc.val.quantity.isNone then apanic "definition location quantity unwrap"
-          if refText then awarn "text-value-in-ref" [rl, dl] else awarn "text-value-in-ref" [dl, rl]
-      | _, _ => pure ()
-      let newIndex := s.cookware.size
-      match defn.relation with
-      | .definition rf b =>
-        modify fun s => { s with cookware := s.cookware.setIfInBounds o.refTo { defn with relation := .definition (rf ++ [newIndex]) b } }
-      | .reference _ => apanic "Reference to reference"
+      cwRefChecks input lc cw defn defLoc
+      cwSetReferencedFrom o.refTo s.cookware.size defn
     | _, _ => apanic "reference target out of range"
+    return cw
+
+/-- resolve the reference of the new cookware item and push it -/
+def cwBuild (env : Env) (input : Str) (lc : Loc (PCookware α)) (cw0 : Cookware (ScalableValue α)) : A α Nat := do
+  let cw ← cwResolve env input lc cw0
   modify fun s => { s with locCw := s.locCw.push lc, cookware := s.cookware.push cw }
   return (← get).cookware.size - 1
 
+def cookwareA (env : Env) (input : Str) (lc : Loc (PCookware α)) : A α Nat := do
+  let c := lc.val
+  let quantity ← optValueOf env c.quantity
+  let s0 ← get
+  let cw0 : Cookware (ScalableValue α) :=
+    ⟨c.name.trimmed env.cs, c.alias.map (·.trimmed env.cs), quantity, c.note.map (·.trimmed env.cs),
+     .definition [] (s0.defineMode != .components), c.modifiers.val⟩
+  cwBuild env input lc cw0
+
+/-- the quantity of a timer with its ADVANCED_UNITS checks -/
+def timerQuantityChecks (env : Env) (q : Loc (PQuantity α)) (r : Quantity (ScalableValue α)) : A α Unit := do
+  if env.ext.has Gen.EXT_ADVANCED_UNITS then
+    if r.value.val.isText then aerr "timer-value-text" [q.val.value.value.span]
+    match r.unit with
+    | some u =>
+      let uspan := (q.val.unit.map (·.span)).getD ⟨0, 0⟩
+      match env.findUnit u with
+      | some pq => if pq ≠ env.timeQ then aerr "timer-unit-not-time" [uspan]
+      | none => aerr "timer-unit-unknown" [uspan]
+    | none => pure ()
+
+def timerQuantity (env : Env) (tq : Option (Loc (PQuantity α))) : A α (Option (Quantity (ScalableValue α))) :=
+  match tq with
+  | some q => do
+    let r ← quantityOf env q false
+    timerQuantityChecks env q r
+    pure (some r)
+  | none => pure none
+
 def timerA (env : Env) (lt : Loc (PTimer α)) : A α Nat := do
   let t := lt.val
-  let quantity ← (match t.quantity with
-    | some q => do
-      let r ← quantityOf env q false
-      if env.ext.has Gen.EXT_ADVANCED_UNITS then
-        if r.value.val.isText then aerr "timer-value-text" [q.val.value.value.span]
-        match r.unit with
-        | some u =>
-          let uspan := (q.val.unit.map (·.span)).getD ⟨0, 0⟩
-          match env.findUnit u with
-          | some pq => if pq ≠ env.timeQ then aerr "timer-unit-not-time" [uspan]
-          | none => aerr "timer-unit-unknown" [uspan]
-        | none => pure ()
-      pure (some r)
-    | none => pure none)
+  let quantity ← timerQuantity env t.quantity
   modify fun s => { s with timers := s.timers.push ⟨t.name.map (·.trimmed env.cs), quantity⟩ }
   return (← get).timers.size - 1
 
@@ -476,30 +540,36 @@ def findInlineQuantity (env : Env) : (fuel : Nat) → (prefixRev : Str) → (res
 
 /-! ### step / text items -/
 
-def inStepText (env : Env) (t : Text) : A α Unit := do
+/-- splitting a step text at the inline quantities (INLINE_QUANTITIES) -/
+def inlineLoop (env : Env) (fuel : Nat) (hay : Str) (items : List Item) (iq : Array (Quantity (Value α))) :
+    List Item × Array (Quantity (Value α)) :=
+  match fuel with
+  | 0 => (items, iq)
+  | fuel + 1 =>
+    match findInlineQuantity (α := α) env (hay.length + 1) [] hay with
+    | some hit =>
+      let items := if hit.before.isEmpty then items else items ++ [.text hit.before]
+      let items := items ++ [.inlineQuantity iq.size]
+      inlineLoop env fuel hit.after items (iq.push hit.q)
+    | none => (if hay.isEmpty then items else items ++ [.text hay], iq)
+
+/-- text inside a step block -/
+def inStepTextStep (env : Env) (t : Text) (items : List Item) : A α Unit := do
   let s ← get
   let txt := t.text
+  if s.defineMode == .components then
+    if txt.any env.cs.alnum then awarn "text-in-components-mode" [t.span]
+  else if env.ext.has Gen.EXT_INLINE_QUANTITIES then
+    let r := inlineLoop env (txt.length + 1) txt items s.inlineQ
+    modify fun s => { s with block := some (BlockBuf.step r.1), inlineQ := r.2 }
+  else
+    modify fun s => { s with block := some (BlockBuf.step (items ++ [Item.text txt])) }
+
+def inStepText (env : Env) (t : Text) : A α Unit := do
+  let s ← get
   match s.block with
-  | some (.step items) =>
-    if s.defineMode == .components then
-      if txt.any env.cs.alnum then awarn "text-in-components-mode" [t.span]
-    else if env.ext.has Gen.EXT_INLINE_QUANTITIES then
-      let rec loop (fuel : Nat) (hay : Str) (items : List Item) (iq : Array (Quantity (Value α))) :
-          List Item × Array (Quantity (Value α)) :=
-        match fuel with
-        | 0 => (items, iq)
-        | fuel + 1 =>
-          match findInlineQuantity (α := α) env (hay.length + 1) [] hay with
-          | some hit =>
-            let items := if hit.before.isEmpty then items else items ++ [.text hit.before]
-            let items := items ++ [.inlineQuantity iq.size]
-            loop fuel hit.after items (iq.push hit.q)
-          | none => (if hay.isEmpty then items else items ++ [.text hay], iq)
-      let (items', iq') := loop (txt.length + 1) txt items s.inlineQ
-      set { s with block := some (BlockBuf.step items'), inlineQ := iq' }
-    else
-      set { s with block := some (BlockBuf.step (items ++ [Item.text txt])) }
-  | some (.text buf) => set { s with block := some (BlockBuf.text (buf ++ txt)) }
+  | some (.step items) => inStepTextStep env t items
+  | some (.text buf) => modify fun s => { s with block := some (BlockBuf.text (buf ++ t.text)) }
   | none => apanic "Content outside block"
 
 def sliceBytes (input : Str) (a b : Nat) : Option Str :=
@@ -520,26 +590,33 @@ def pushItem (it : Item) : A α Unit := do
   | some (.step items) => set { s with block := some (.step (items ++ [it])) }
   | _ => apanic "pushItem outside step"
 
+/-- a component inside a step block -/
+def inStepComponent (env : Env) (input : Str) (ev : Ev α) : A α Unit :=
+  match ev with
+  | .ingredient i => do let idx ← ingredientA env input i; pushItem (.ingredient idx)
+  | .cookware c => do let idx ← cookwareA env input c; pushItem (.cookware idx)
+  | .timer t => do let idx ← timerA env t; pushItem (.timer idx)
+  | _ => apanic "Unexpected event in step"
+
+/-- a component inside a text block (define mode text): its source text is appended -/
+def inTextComponent (input : Str) (ev : Ev α) (buf : Str) : A α Unit := do
+  let s ← get
+  if s.defineMode != .text then apanic "Non text event in text block outside define mode text"
+  let (c, span) : String × Span := match ev with
+    | .ingredient i => ("ingredient", i.span)
+    | .cookware c => ("cookware", c.span)
+    | .timer t => ("timer", t.span)
+    | _ => ("?", ⟨0, 0⟩)
+  awarn s!"component-in-text-mode:{c}" [span]
+  match sliceBytes input span.start span.stop with
+  | some sl => modify fun s => { s with block := some (.text (buf ++ sl)) }
+  | none => apanic "text mode: slice not on a char boundary"
+
 def inBlockComponent (env : Env) (input : Str) (ev : Ev α) : A α Unit := do
   let s ← get
   match s.block with
-  | some (.step _) =>
-    match ev with
-    | .ingredient i => let idx ← ingredientA env input i; pushItem (.ingredient idx)
-    | .cookware c => let idx ← cookwareA env input c; pushItem (.cookware idx)
-    | .timer t => let idx ← timerA env t; pushItem (.timer idx)
-    | _ => apanic "Unexpected event in step"
-  | some (.text buf) =>
-    if s.defineMode != .text then apanic "Non text event in text block outside define mode text"
-    let (c, span) : String × Span := match ev with
-      | .ingredient i => ("ingredient", i.span)
-      | .cookware c => ("cookware", c.span)
-      | .timer t => ("timer", t.span)
-      | _ => ("?", ⟨0, 0⟩)
-    awarn s!"component-in-text-mode:{c}" [span]
-    match sliceBytes input span.start span.stop with
-    | some sl => modify fun s => { s with block := some (.text (buf ++ sl)) }
-    | none => apanic "text mode: slice not on a char boundary"
+  | some (.step _) => inStepComponent env input ev
+  | some (.text buf) => inTextComponent input ev buf
   | none => apanic "Content outside block"
 
 /-! ### `>>` metadata -/
@@ -559,7 +636,7 @@ def timeOverrideCheck (new : StdKey) : A α Unit := do
   if overrides.isNone then apanic "time_override_check: index 0"
   let overridenKeys : List StdKey := if new == .time then [.prepTime, .cookTime] else [.time]
   let overriden := locs overridenKeys
-  set { s with metaLocs := s.metaLocs.filter (fun p => !overridenKeys.contains p.1) }
+  modify fun s => { s with metaLocs := s.metaLocs.filter (fun p => !overridenKeys.contains p.1) }
   if overriden.isEmpty then return
   awarn "time-overridden" (overriden ++ [overrides.getD ⟨0, 0⟩])
 
@@ -571,14 +648,14 @@ def metadataA (env : Env) (key value : Text) : A α Unit := do
     let configKey := String.ofList ((keyT.drop 1).dropLast)
     let v := String.ofList valueT
     if configKey == "define" || configKey == "mode" then
-      if v == "all" || v == "default" then set { s with defineMode := .all }
-      else if v == "components" || v == "ingredients" then set { s with defineMode := .components }
-      else if v == "steps" then set { s with defineMode := .steps }
-      else if v == "text" then set { s with defineMode := .text }
+      if v == "all" || v == "default" then modify fun s => { s with defineMode := .all }
+      else if v == "components" || v == "ingredients" then modify fun s => { s with defineMode := .components }
+      else if v == "steps" then modify fun s => { s with defineMode := .steps }
+      else if v == "text" then modify fun s => { s with defineMode := .text }
       else aerr "config-invalid-value" [value.span, key.span]
     else if configKey == "duplicate" then
-      if v == "new" || v == "default" then set { s with duplicateMode := .new }
-      else if v == "reference" || v == "ref" then set { s with duplicateMode := .reference }
+      if v == "new" || v == "default" then modify fun s => { s with duplicateMode := .new }
+      else if v == "reference" || v == "ref" then modify fun s => { s with duplicateMode := .reference }
       else aerr "config-invalid-value" [value.span, key.span]
     else
       awarn "config-unknown-key" [key.span]
@@ -610,26 +687,34 @@ structure AnalysisResult (α : Type) where
   diags : Array Diag
   panic : Option String
 
-def endBlock (kind : BlockKind) : A α Unit := do
+/-- the content of the block that ends (with the assertions of the `End` event) -/
+def endBlockContent (kind : BlockKind) : A α (Option Content) := do
   let s ← get
-  let newContent : Option Content ← (match s.block with
-    | some (.step items) => do
-      if kind != .step then apanic "End: assert_eq!(kind, Step)"
-      pure (some (Content.step ⟨items, s.stepCounter⟩))
-    | some (.text t) => do
-      if !(kind == .text || s.defineMode == .text) then apanic "End: text block kind assertion"
-      pure (some (Content.text t))
-    | none => do apanic "End event without Start"; pure none)
+  match s.block with
+  | some (.step items) => do
+    if kind != .step then apanic "End: assert_eq!(kind, Step)"
+    pure (some (Content.step ⟨items, s.stepCounter⟩))
+  | some (.text t) => do
+    if !(kind == .text || s.defineMode == .text) then apanic "End: text block kind assertion"
+    pure (some (Content.text t))
+  | none => do apanic "End event without Start"; pure none
+
+/-- after the repair: empty content (a text block without text, a step without items) is not pushed -/
+def Content.isEmptyContent : Content → Bool
+  | .text t => t.isEmpty
+  | .step st => st.items.isEmpty
+
+def pushContent (c : Content) : A α Unit := do
+  let s ← get
+  if (s.defineMode != .components || !c.isStep) && !c.isEmptyContent then
+    modify fun s => { s with
+      stepCounter := if c.isStep then s.stepCounter + 1 else s.stepCounter,
+      cur := { s.cur with content := s.cur.content ++ [c] } }
+
+def endBlock (kind : BlockKind) : A α Unit := do
+  let newContent ← endBlockContent kind
   match newContent with
-  | some c =>
-    -- after the repair: empty content (a text block without text, a step without items) is not pushed
-    let isEmptyContent := match c with
-      | .text t => t.isEmpty
-      | .step st => st.items.isEmpty
-    if (s.defineMode != .components || !c.isStep) && !isEmptyContent then
-      modify fun s => { s with
-        stepCounter := if c.isStep then s.stepCounter + 1 else s.stepCounter,
-        cur := { s.cur with content := s.cur.content ++ [c] } }
+  | some c => pushContent c
   | none => pure ()
   modify fun s => { s with block := none }
 
